@@ -46,7 +46,7 @@ func ccTypesIn(e *Engine, fn *ssa.Function) map[string]bool {
 // mapsConsulted: Membership map fields looked up or ranged in fn.
 func mapsConsulted(e *Engine, fn *ssa.Function) map[string]bool {
 	out := map[string]bool{}
-	e.forEachInstrRegion(fn, 2, func(in ssa.Instruction) {
+	e.forEachInstrBound(fn, 2, func(in ssa.Instruction, resolve func(ssa.Value) ssa.Value) {
 		var m ssa.Value
 		switch x := in.(type) {
 		case *ssa.Lookup:
@@ -61,13 +61,59 @@ func mapsConsulted(e *Engine, fn *ssa.Function) map[string]bool {
 		if m == nil {
 			return
 		}
-		if f, _, ok := loadedField(m); ok {
+		if f, _, ok := loadedField(resolve(m)); ok {
 			if nt, isN := f.Type().Underlying().(*types.Map); isN && nt != nil {
 				out[f.Name()] = true
 			}
 		}
 	})
 	return out
+}
+
+// forEachInstrBound visits the instructions of fn and of the same-package
+// functions it calls statically (to the given depth), like the region view,
+// but per call site: resolve() maps a parameter of the helper being visited
+// to the argument it receives at that call site (transitively), so a rule
+// that asks "which map is looked up" sees through `hasReplica(m.members.X, id)`.
+func (e *Engine) forEachInstrBound(fn *ssa.Function, depth int, f func(in ssa.Instruction, resolve func(ssa.Value) ssa.Value)) {
+	var visit func(g *ssa.Function, d int, resolve func(ssa.Value) ssa.Value, stack map[*ssa.Function]bool)
+	visit = func(g *ssa.Function, d int, resolve func(ssa.Value) ssa.Value, stack map[*ssa.Function]bool) {
+		if stack[g] {
+			return
+		}
+		stack[g] = true
+		defer delete(stack, g)
+		forEachInstr(g, func(in ssa.Instruction) {
+			f(in, resolve)
+			if d == 0 {
+				return
+			}
+			c, ok := in.(*ssa.Call)
+			if !ok {
+				return
+			}
+			sc := c.Call.StaticCallee()
+			if sc == nil || len(sc.Blocks) == 0 || fnPkg(sc) != fnPkg(fn) || fnPkg(sc) == nil {
+				return
+			}
+			args := c.Call.Args
+			params := sc.Params
+			inner := func(v ssa.Value) ssa.Value {
+				sv := stripConv(v)
+				for i, p := range params {
+					if sv == ssa.Value(p) && i < len(args) {
+						return resolve(args[i])
+					}
+				}
+				return v
+			}
+			visit(sc, d-1, inner, stack)
+		})
+		for _, an := range g.AnonFuncs {
+			visit(an, d, resolve, stack)
+		}
+	}
+	visit(fn, depth, func(v ssa.Value) ssa.Value { return v }, map[*ssa.Function]bool{})
 }
 
 func keysOf(m map[string]bool) string {
@@ -183,9 +229,9 @@ func runC07(e *Engine, r *Report) {
 			"the predicate now covers types {"+gotT+"} and maps {"+gotM+"}: some requests it must reject (or must not reject) are decided differently")
 		// id lookups are keyed by the change's replica id
 		okKey := true
-		forEachInstr(fn, func(in ssa.Instruction) {
+		e.forEachInstrBound(fn, 2, func(in ssa.Instruction, resolve func(ssa.Value) ssa.Value) {
 			if lk, ok := in.(*ssa.Lookup); ok {
-				if _, isMap := lk.X.Type().Underlying().(*types.Map); isMap && !fieldV(ccReplica)(lk.Index) {
+				if _, isMap := lk.X.Type().Underlying().(*types.Map); isMap && !fieldV(ccReplica)(resolve(lk.Index)) {
 					okKey = false
 				}
 			}
